@@ -228,14 +228,7 @@ def handle (req : Json) : Except String Json := do
         let (mTwin, _) := runModel c aux0 own0 w1 (twinOps c mInit (ops.zip mSteps))
         let (n, vi) := specC02 c iInit (ops.zip iSteps) iTwin
         let (_, vm) := specC02 c mInit (ops.zip mSteps) mTwin
-        -- a known finding is reported only on runs where code and model agree on everything else observed
-        let noOwnS (s : State) : State := { s with own := [] }
-        let noOwn (s : StepObs) : StepObs := { s with st := noOwnS s.st }
-        let sameModOwn := decide (noOwnS iInit = noOwnS mInit) && decide (iSteps.map noOwn = mSteps.map noOwn)
-        let gate : Option String → Option String := fun
-          | some w => if w.startsWith "finding:" && !sameModOwn then none else some w
-          | none => none
-        pure (n, gate vi, gate vm)
+        pure (n, vi, vm)
     return Json.mkObj [
       ("model", Json.mkObj [("ctor_err", Json.null), ("init", Json.mkObj (stateFields mInit)), ("steps", jList jStep mSteps), ("cut", toJson cut)]),
       ("applicable", Json.bool (!unsupported)), ("checked_steps", toJson n),
